@@ -4,6 +4,11 @@ import json, os
 ROOT = os.path.dirname(os.path.dirname(os.path.abspath(__file__)))
 props = [json.loads(l) for l in open(ROOT + "/properties.jsonl")]
 CLAIMED = {
+ "C13": dict(
+   technique="Lean 4: generic congruence/equivalence theorems lifting terminal consistency to all expressions (mutual structural induction) + kernel `decide` over a per-class, per-field observation table regenerated from live objects; oracle on generated expression pairs",
+   text="Generic theorems for expressions of any size and any terminal observers: == implies equal (Merkle) hash and identical repr (C13_eq_implies_hash_repr), == is an equivalence relation (C13_equivalence), the operand sharing performed by expr_equals changes no observer (C13_compare_is_pure). Their hypothesis (terminal ==/hash/repr consistent) is discharged by the regenerated table Gen/EqFields.lean: for 27 classes (terminals, Variable, Mesh, FunctionSpace, operators, Integral, Form) and each constructor field, two live objects differing in exactly that field and an equal copy; C13_fields_eq_sees_all (what hash/repr/signature/shape see, == sees), C13_fields_repr_faithful (!= objects have different repr; changed objects survive pickle and eval(repr)), C13_fields_copies. An oracle checks the same statements plus symmetry, transitivity, purity of comparison and both round trips on generated expression pools with deep copies and on forms. The Constant.__eq__ defect found by the table was repaired by a fix: commit.",
+   note="Trusted: Lean kernel; harness/props/c13.py (object construction and observation). The table samples two values per field; pickle and eval(repr) are observed, not modelled; utils.FiniteElement stands for third-party element classes.",
+   design="5 C13"),
  "C05": dict(
    technique="Lean 4 proofs (case analysis + functional/fuel induction, Mathlib field with exact-rational literal folding) that each modelled constructor builds the requested operation; hand model tied by exact-tree correspondence on generated operand tuples; value oracle through the denotational eval",
    text="Model/Construct.lean transcribes __new__/__init__ of Sum, Product, Division, Power, Abs, Conj, Real, Imag, Indexed with every _simplify_indexed hook, IndexSum, ComponentTensor, ListTensor (both collapse rules), Conditional and the conditions. Proved for every operand, valuation, index environment and component, over any field of characteristic 0: C05_mkSum, C05_mkProduct, C05_mkDivision, C05_mkIndexSum (incl. pushing the sum into a factor), C05_mkIndexed_partial (zero folding, distribution over sums, indexing under index sums without capture, list-tensor row selection; the as_tensor(C[kk],jj)[is] shortcut is excluded), C05_mkComponentTensor, C05_mkConditional, C05_mkListTensor_partial, plus closure of well-formedness (WF) and the base lemma eval_congr (a value depends on the index environment only through the free indices). The model is compared tree-for-tree with the live constructors on ~3-4k generated operand tuples per run (zeros with free indices, both literal kinds, re-used Index objects, collapse near-misses, malformed operands), and the value/shape/free indices of every built expression and of the public operators T[key] and a*b are checked against the operand values. Four genuine defects were found and repaired by fix: commits (Abs self-reference, ListTensor collapse ignoring the binder, IndexSum index capture; see known_findings.json).",
